@@ -187,6 +187,14 @@ Definition prop_ok (c : case) : bool :=
    the observation departs from the proved model. *)
 Definition verdict (c : case) : nat :=
   if negb (prop_ok c) then 2
+  else if match c_req c with None => true | Some _ => false end then
+    (* bytes that are not a request: nothing is answered, nothing stored; the
+       stream is reset, or closed when the bytes end at a frame boundary *)
+    match c_impl c, c_stored c with
+    | IReset _, [] => 0
+    | INoReply, [] => 0
+    | _, _ => 2
+    end
   else
     let (m, st) := model c in
     let strict := match c_req c with Some q => sized (q_type q) | None => false end in
